@@ -31,6 +31,7 @@ def corrupted (w : World) : Bool :=
        | some p => decide (p < 0 ∨ p ≥ b.batches.length))
     | none => false))
 
+
 end RV.Oracle.RolloutSM
 
 namespace RV.Oracle.RolloutSM
@@ -82,12 +83,16 @@ def advanceGated (w : World) (r : StepResult) : Bool :=
   | _, _, _ => true
 
 /-- **C02.iii** — while `spec.strategy.paused` is set, a reconcile of an InRolling rollout changes
-    nothing but the Progressing reason (unless the workload was rolled back, which is handled first). -/
+    nothing but the Progressing reason, which becomes `Paused` (unless the workload was rolled back, which is
+    handled first). -/
 def pausedNoProgress (w : World) (r : StepResult) : Bool :=
   match w.wl with
   | some wl =>
     if inRollingNow w.ro ∧ w.ro.paused ∧ wl.consistent ∧ ¬ wl.inRollback ∧ ¬ w.ro.disabled then
       r.w.br == w.br && r.w.net == w.net && r.w.wl == w.wl && r.writes.isEmpty &&
+      -- the rollout parks in reason Paused; in particular it does not slip into Finalising (whose tasks
+      -- do not look at `spec.strategy.paused` any more and would promote the remaining pods)
+      r.w.ro.reason == .paused &&
       (match w.ro.sub, r.w.ro.sub with
        | some s, some s' => s'.curIdx == s.curIdx && s'.state == s.state
        | none, none => true
@@ -189,6 +194,74 @@ def fullStepUnpinsFirst (w : World) (r : StepResult) : Bool :=
     else true
   | _, _, _ => true
 
+/-- the pause of the step the status points at is satisfied, as `doCanaryPaused` judges it: the last step of a canary plan
+    that releases `100%` needs no approval; a pause with a duration is over once the last status update is older than it.
+    (A manual pause is ended by the user writing `StepReady`, which is not a reconcile.) -/
+def pauseSatisfied (ro : Rollout) (s : Sub) : Bool :=
+  match ro.steps[(s.curIdx - 1).toNat]? with
+  | some step =>
+    (ro.style = .canary && decide ((ro.steps.length : Int) = s.curIdx) && step.replicas == .pct 100) ||
+    (step.pause = .short && s.lastUpdate = .elapsed)
+  | none => false
+
+/-- **C02.i** — the controller itself moves a step from `StepPaused` to `StepReady` only when the step's pause is
+    satisfied (or the plan was edited, which re-evaluates the step). -/
+def readyNeedsPause (w : World) (r : StepResult) : Bool :=
+  match w.ro.sub, r.w.ro.sub with
+  | some s, some s' =>
+    if inRollingNow w.ro ∧ r.w.ro.reason = .inRolling ∧ s.state = .paused ∧ s'.state = .ready ∧ s'.curIdx = s.curIdx ∧
+       s.hash ≠ .differs then pauseSatisfied w.ro s
+    else true
+  | _, _ => true
+
+/-- replicas that step `i` (1-based) of the plan asks for on this workload -/
+def stepReplicas (ro : Rollout) (wl : WL) (i : Int) : Option Int :=
+  if i < 1 then none else (ro.steps[(i - 1).toNat]?).map fun st => scaledV st.replicas wl.replicas true
+
+/-- what the BatchRelease has been authorised to release so far: the entry of *its* plan its partition points at -/
+def releasedByBR (b : BR) (wl : WL) : Option Int :=
+  match b.partition with
+  | some p => if p < 0 then none else (b.batches[p.toNat]?).map fun e => scaledV e wl.replicas true
+  | none => none
+
+def coversIdx (ro : Rollout) (wl : WL) (rel : Int) (i : Int) : Bool :=
+  match stepReplicas ro wl i with
+  | some r => decide (rel ≤ r)
+  | none => false
+
+/-- **C01 (across edits of the plan)** — when the plan is edited while a step is in progress, the rollout re-positions
+    itself (`recalculateCanaryStep`) on a step of the NEW plan that covers what the BatchRelease was already authorised to
+    release under the OLD plan (its `batchPartition`, not the batch it happens to have reached): afterwards the current
+    step or the one it is about to move to allows at least that many pods — whenever the new plan has such a step at all. -/
+def recalcCovers (w : World) (r : StepResult) : Bool :=
+  match w.wl, w.ro.sub, r.w.ro.sub, w.br with
+  | some wl, some s, some s', some b =>
+    if inRollingNow w.ro ∧ ¬ w.ro.paused ∧ wl.consistent ∧ ¬ wl.inRollback ∧ wl.canaryRev = s.canaryRev ∧ s.hash = .differs ∧
+       r.w.ro.reason = .inRolling ∧ ¬ r.err then
+      match releasedByBR b wl with
+      | some rel =>
+        if (List.range w.ro.steps.length).any (fun i => coversIdx w.ro wl rel ((i : Int) + 1)) then
+          coversIdx w.ro wl rel s'.curIdx || coversIdx w.ro wl rel s'.nextIdx
+        else true
+      | none => true
+    else true
+  | _, _, _, _ => true
+
+/-- **C04 / C02** — while the workload's status is not consistent with its spec (`generation ≠ observedGeneration`: the
+    controller cannot tell which revision the pods run, the finder reports an empty `Workload`) a reconcile of a Rollout
+    that is not being deleted only waits: nothing is written to the BatchRelease, the workload or the network, the
+    status cursor stays where it is, and the request is requeued.  (An unreadable workload carries no revision label
+    key: clean-up tasks run in that window would "restore" nothing and still report completion.) -/
+def inconsistentWaits (w : World) (r : StepResult) : Bool :=
+  match w.wl with
+  | some wl =>
+    if ¬ wl.consistent ∧ ¬ w.ro.deleting then
+      r.w.br == w.br && r.w.net == w.net && r.w.wl == w.wl &&
+      (r.w.ro.sub.map fun s => (s.curIdx, s.state, s.finStep, s.canaryRev, s.stableRev)) == (w.ro.sub.map fun s => (s.curIdx, s.state, s.finStep, s.canaryRev, s.stableRev)) &&
+      r.w.ro.phase == w.ro.phase && r.w.ro.reason == w.ro.reason && r.requeue && !r.err
+    else true
+  | none => true
+
 def stepOracles (w : World) (r : StepResult) : List (String × Bool) :=
   [("C03.enter_routing_gated", enterRoutingGated w r),
    ("C02.pods_before_next_state", enterRoutingGated w r),
@@ -200,7 +273,12 @@ def stepOracles (w : World) (r : StepResult) : List (String × Bool) :=
    ("C10.bluegreen_refuses_continuous", blueGreenRefusesContinuous w r),
    ("C04.full_step_unpins_first", fullStepUnpinsFirst w r),
    ("C02.no_self_jump", noSelfJump w r),
-   ("C10.reset_routes_first", resetRoutesFirst w r)]
+   ("C10.reset_routes_first", resetRoutesFirst w r),
+   ("C02.ready_needs_pause", readyNeedsPause w r),
+   ("C01.recalc_covers_released", recalcCovers w r),
+   ("C04.inconsistent_waits", inconsistentWaits w r),
+   ("C05.inconsistent_waits", inconsistentWaits w r),
+   ("C02.inconsistent_waits", inconsistentWaits w r)]
 
 end RV.Oracle.RolloutSM
 
